@@ -3,6 +3,7 @@ package main
 import (
 	"bytes"
 	"fmt"
+	"reflect"
 
 	kcl "github.com/TheManticoreProject/Manticore/windows/keycredential"
 	kcutils "github.com/TheManticoreProject/Manticore/windows/keycredential/utils"
@@ -60,8 +61,9 @@ func histories(c *vf.Ctx) {
 			x, y := bs[i].blob, bs[j].blob
 			tam := append([]byte(nil), y...)
 			tam[len(tam)-1] ^= 0x01 // last byte lies in an entry the hash covers
-			var okY, okT, sameBytes bool
+			var okY, okT, sameBytes, sameFields bool
 			var eY, eT error
+			var diff string
 			pan, msg, where := vf.Try(func() {
 				var r kcl.KeyCredential
 				r.FromBytes(append([]byte(nil), x...))
@@ -71,11 +73,20 @@ func histories(c *vf.Ctx) {
 				if out, err := r.ToBytes(); err == nil {
 					sameBytes = bytes.Equal(out, y)
 				}
+				var fresh kcl.KeyCredential
+				fresh.FromBytes(append([]byte(nil), y...))
+				sameFields = reflect.DeepEqual(&r, &fresh)
+				if !sameFields {
+					diff = fmt.Sprintf("reused receiver holds %+v, a fresh receiver %+v", r, fresh)
+				}
 				eT = r.FromBytes(tam)
 				okT = eT == nil && r.CheckIntegrity()
 			})
 			c.Check("C14/history/receiver-reused/second-blob-verifies-and-reserialises", !pan && okY && sameBytes, func() string {
 				return fmt.Sprintf("one receiver: FromBytes(blob %d); CheckIntegrity; FromBytes(blob %d): err=%v integrity=%v re-serialises identically=%v (panic=%v %s %s)", i, j, eY, okY, sameBytes, pan, msg, where)
+			})
+			c.Check("C14/history/receiver-reused/second-blob-parses-to-the-fields-a-fresh-receiver-gets", !pan && sameFields, func() string {
+				return fmt.Sprintf("one receiver: FromBytes(blob %d); CheckIntegrity; FromBytes(blob %d): %s (panic=%v %s %s)", i, j, diff, pan, msg, where)
 			})
 			c.Check("C14/history/receiver-reused/tampered-blob-rejected", !pan && !okT, func() string {
 				return fmt.Sprintf("one receiver: FromBytes(blob %d); CheckIntegrity; …; FromBytes(blob %d with its last bit flipped): accepted by CheckIntegrity", i, j)
